@@ -2,7 +2,10 @@ import TxdbusModel.Msg.Attr
 import TxdbusModel.Msg.HeaderCode
 /-
 C03 CODE MODEL: txdbus/message.py as the code is written (after repairs 7466ae7: parseMessage
-restores the two flags, and efe5b53: the constructors test `is not None`).
+restores the two flags; efe5b53: the constructors test `is not None`; d5434a8: parseMessage refuses a
+truthy signature attribute that is not a str of at most 255 characters; 84eeaa3: `_marshal` has a
+parameter `rawBody=None` used only by the bus when it forwards a received message - the constructors
+never pass it, the model is `_marshal` with `rawBody is None`).
 
   * a message object is its class, the two flag attributes, the nine header attributes
     (`getattr(self, name, None)`: an attribute that was never set reads as None, like the class
@@ -19,7 +22,7 @@ restores the two flags, and efe5b53: the constructors test `is not None`).
   * `parseMessage`: byte order from the first byte (`== ord('l')`, anything else is big endian), header
     decode, `_mtype` lookup, the three raw slices, serial, flags, `setattr` per field through `_hcode`
     (unknown codes ignored, a later field overwrites an earlier one), body decode when the signature
-    attribute is truthy.
+    attribute is truthy (and a str of at most 255 characters, else MarshallingError).
 The message body is opaque: the model is parameterised by a `BodyCodec` (what `marshal.marshal` /
 `marshal.unmarshal` do with a signature and a body - the subject of C01/C02).  The tables come from
 `Gen/Message.lean` through the `Tables` record.  Core Lean only.
@@ -123,49 +126,60 @@ structure Pre (β : Type) where
   attrs : Attr → PyVal
   body : Option β
 
-/-- `DBusMessage._marshal(self, newSerial=True, oobFDs=oobFDs)`; `maxLen` = `self._maxMsgLen`.
+/-- First part of `_marshal`: the body is marshalled before the headers "to know if the 'unix_fd' header is
+needed".  Returns `binBody`, the attributes (with `unix_fds` set when descriptors were collected) and the
+header table to walk (the class's `_headerAttrs`, plus `('unix_fds', 9, False)` in that case). -/
+def marshalBody {β : Type} (T : Tables) (C : BodyCodec β) (p : Pre β) (oobFDs : Option (List Int)) :
+    Except PyErr (Bytes × (Attr → PyVal) × List (Attr × Nat × Bool)) :=
+  let sigv := p.attrs .signature
+  if truthy sigv then
+    match sigv with
+    | .str _ sg =>
+      match C.marshal sg p.body oobFDs with
+      | .error x => .error x
+      | .ok (binBody, fds') =>
+        match fds' with
+        | some (fd :: l) =>
+          .ok (binBody, setAttr p.attrs .unixFds (.int .plain ((fd :: l).length : Nat)),
+               T.headerAttrs p.cls ++ [T.unixFdsEntry])
+        | _ => .ok (binBody, p.attrs, T.headerAttrs p.cls)
+    | _ => .error .type                 -- genCompleteTypes(<not a str>)
+  else .ok ([], p.attrs, T.headerAttrs p.cls)
+
+/-- The flags byte: `0x1` unless expectReply, `0x2` unless autoStart. -/
+def flagsByte (expectReply autoStart : Bool) : Nat :=
+  (if expectReply then 0 else 1) + (if autoStart then 0 else 2)
+
+/-- Second part of `_marshal`: header list, serial allocation, header, padding, size check. -/
+def finishMarshal {β : Type} (T : Tables) (maxLen : Nat) (st : St) (p : Pre β) (binBody : Bytes)
+    (attrs : Attr → PyVal) (table : List (Attr × Nat × Bool)) : St × Except PyErr (Msg β) :=
+  match buildHeaders attrs table with
+  | .error x => (st, .error x)
+  | .ok headers =>
+    -- self.serial = DBusMessage._nextSerial ; DBusMessage._nextSerial += 1
+    let serial := st.nextSerial
+    let st' : St := ⟨st.nextSerial + 1⟩
+    let le := T.endian == 108
+    if T.headerFormat ≠ ['y', 'y', 'y', 'y', 'u', 'u', 'a', '(', 'y', 'v', ')'] then (st', .error .other)
+    else
+    match marshalHeader T.align le (.int .plain (T.endian : Nat)) (.int .plain (T.messageType p.cls : Nat))
+            (.int .plain (flagsByte p.expectReply p.autoStart : Nat)) (.int .plain (T.protocolVersion : Nat))
+            (.int .plain (binBody.length : Nat)) (.int .plain (serial : Nat)) headers with
+    | .error x => (st', .error x)
+    | .ok binHeader =>
+      let pad := headerPadding binHeader.length
+      if (binHeader ++ pad ++ binBody).length > maxLen then (st', .error .marshalling)
+      else (st', .ok { cls := p.cls, expectReply := p.expectReply, autoStart := p.autoStart, attrs := attrs,
+                       body := p.body, serial := serial, rawHeader := binHeader, rawPadding := pad,
+                       rawBody := binBody })
+
+/-- `DBusMessage._marshal(self, newSerial=True, oobFDs=oobFDs)` (`rawBody=None`); `maxLen` = `self._maxMsgLen`.
 Returns the new counter state together with the message or the exception. -/
 def marshalMsg {β : Type} (T : Tables) (C : BodyCodec β) (maxLen : Nat) (st : St) (p : Pre β)
     (oobFDs : Option (List Int)) : St × Except PyErr (Msg β) :=
-  let flags : Nat := (if p.expectReply then 0 else 1) + (if p.autoStart then 0 else 2)
-  let sigv := p.attrs .signature
-  -- marshal body before headers to know if the 'unix_fd' header is needed
-  let bodyRes : Except PyErr (Bytes × (Attr → PyVal) × List (Attr × Nat × Bool)) :=
-    if truthy sigv then
-      match sigv with
-      | .str _ sg =>
-        match C.marshal sg p.body oobFDs with
-        | .error x => .error x
-        | .ok (binBody, fds') =>
-          match fds' with
-          | some (fd :: l) =>
-            .ok (binBody, setAttr p.attrs .unixFds (.int .plain ((fd :: l).length : Nat)),
-                 T.headerAttrs p.cls ++ [T.unixFdsEntry])
-          | _ => .ok (binBody, p.attrs, T.headerAttrs p.cls)
-      | _ => .error .type                 -- genCompleteTypes(<not a str>)
-    else .ok ([], p.attrs, T.headerAttrs p.cls)
-  match bodyRes with
+  match marshalBody T C p oobFDs with
   | .error x => (st, .error x)
-  | .ok (binBody, attrs, table) =>
-    match buildHeaders attrs table with
-    | .error x => (st, .error x)
-    | .ok headers =>
-      -- self.serial = DBusMessage._nextSerial ; DBusMessage._nextSerial += 1
-      let serial := st.nextSerial
-      let st' : St := ⟨st.nextSerial + 1⟩
-      let le := T.endian == 108
-      if T.headerFormat ≠ ['y', 'y', 'y', 'y', 'u', 'u', 'a', '(', 'y', 'v', ')'] then (st', .error .other)
-      else
-      match marshalHeader T.align le (.int .plain T.endian) (.int .plain (T.messageType p.cls))
-              (.int .plain flags) (.int .plain T.protocolVersion) (.int .plain binBody.length)
-              (.int .plain serial) headers with
-      | .error x => (st', .error x)
-      | .ok binHeader =>
-        let pad := headerPadding binHeader.length
-        if (binHeader ++ pad ++ binBody).length > maxLen then (st', .error .marshalling)
-        else (st', .ok { cls := p.cls, expectReply := p.expectReply, autoStart := p.autoStart, attrs := attrs,
-                         body := p.body, serial := serial, rawHeader := binHeader, rawPadding := pad,
-                         rawBody := binBody })
+  | .ok (binBody, attrs, table) => finishMarshal T maxLen st p binBody attrs table
 
 /-! ### The four constructors
 
@@ -352,12 +366,15 @@ def parseMessage {β : Type} (T : Tables) (C : BodyCodec β) (rawMessage : Bytes
                            rawPadding := rawPadding, rawBody := rawBody }
         let sigv := attrs .signature
         if truthy sigv then
+          -- repair d5434a8: `if not isinstance(m.signature, str) or len(m.signature) > 255: raise MarshallingError`
           match sigv with
           | .str _ sg =>
-            match C.unmarshal sg rawBody lendian oobFDs with
-            | .error x => .error x
-            | .ok b => .ok { m with body := some b }
-          | _ => .error .type
+            if sg.length > 255 then .error .marshalling
+            else
+              match C.unmarshal sg rawBody lendian oobFDs with
+              | .error x => .error x
+              | .ok b => .ok { m with body := some b }
+          | _ => .error .marshalling
         else .ok m
 
 /-! ### The observable content of a message (what "parses back intact" compares) -/
